@@ -10,8 +10,18 @@ C01 for PM stage 2c (multi-column containers, `Model/PaginateCol.lean`).
    of the document exactly once, in order), for ALL documents with any number of columns, `column-fill`
    balance or auto, a definite container height or not, any nesting / geometry / break values — under the
    excluding hypotheses `NoFixedHeight` (blocks and paragraphs; known finding `fixed-height-forgets-overflow`)
-   and `NoSpan` (no `column-span: all` child; known finding `column-span-loses-following-content`).
-   The full statement is refuted in `Witness/C01Col.lean`.
+   and `NoSpan` (no `column-span: all` child).
+   Status of `NoSpan` after the repair b24b457 (`column-span-loses-following-content`,
+   `column-group-dropped-span-duplicated`): the two refutations are gone (`Witness/C01Col.lean` now holds the
+   regression theorems `span_keeps_following_content`, `group_resumed_span_once` on the same documents), and the
+   model agrees with the repaired code on every generated document with spanning paragraphs / childless spanning
+   blocks.  The hypothesis stays for two reasons: (1) it is still *needed* for spanning blocks with block children
+   (open finding `column-span-block-resume-mislevelled`: their resume position is stored one level too high,
+   corpus/C01/colspan_block_resume_lost.json); (2) for spanning paragraphs the loop invariant over
+   `columns_and_blocks` (several groups, each column box ending at the next span) is not proved yet — the theorems
+   keep their `_partial` names for that reason, not because a counterexample is known.
+3. `find_earlier_skips_container`: `find_earlier_page_break` never looks into a container (repair 3162604), so
+   no resume position is ever built from the index-less children of a container.
 -/
 import WpModel.Lemmas.ColEmbed
 import WpModel.Lemmas.ColSegPages
@@ -109,6 +119,20 @@ theorem pages_conserve_partial (d : CDoc) (hN : NoFixedHeight d.root) (hW : Well
   simp only [PMC.firstRight, requestedSide, isBlank]
   cases d.root.st.brkBefore <;> cases d.rootLtr <;> rfl
 
+/-- **`find_earlier_page_break` does not enter a multi-column container** (`is_multicol`, repair 3162604): whatever
+its children, no earlier break is reported from inside it; the AttributeError of the missing `.index` is not an
+outcome of the function any more (`findEarlierList` has no error value). -/
+theorem find_earlier_skips_container (inCol : Bool) (id idx : Nat) (st : PStyle) (g : Geo) (kids : List CFrag) :
+    PMC.findEarlierFrag inCol (.cols id idx st g kids) = none := by
+  simp [PMC.findEarlierFrag]
+
+/-- A container that is the last laid-out child contributes no earlier break: only the boundary before it can. -/
+theorem find_earlier_container_last (inCol : Bool) (id idx : Nat) (st : PStyle) (g : Geo) (kids : List CFrag) :
+    (PMC.findEarlierGo inCol [.cols id idx st g kids]).found = none := by
+  simp only [PMC.findEarlierGo, PMC.findEarlierFrag, CFrag.isColumn]
+  simp only [Bool.false_eq_true, if_false]
+  split <;> rfl
+
 /-! ### non-vacuity: a balanced 2-column container between paragraphs, over three pages -/
 
 def exSt : PStyle :=
@@ -116,10 +140,44 @@ def exSt : PStyle :=
     brkBefore := .auto, brkAfter := .auto, brkInside := .auto, clone := false, page := "", orphans := 1, widows := 1,
     isRoot := false }
 
+/-- **Why spanning paragraphs are resumed correctly** although `columns_layout` stores the resume position of a
+spanning child one level too high: the resume position of a paragraph always is `{0: line k}` (its only child is line
+box 0), so `{index + 0: column_skip_stack[0]}` followed by `{0: skip_stack[index]}` on the next page gives the
+paragraph back exactly its own resume position.  (For a spanning block with block children the first key is the
+index of the child that was cut, and the round trip fails: finding `column-span-block-resume-mislevelled`.) -/
+theorem span_paragraph_resume_roundtrip (id n : Nat) (lineH : Rat) (st : PStyle) (hh : st.height = none)
+    (ho : 1 ≤ st.orphans) (c : CCtx) (idx : Nat) (y bs : Rat) (skip : Option Resume) (cb pie : Bool)
+    (adjL : List Rat) (f : CFrag) (ρ : Resume)
+    (hf : (PMC.layoutBox c (.para id n lineH st) idx y bs skip cb pie adjL).frag = some f)
+    (hr : (PMC.layoutBox c (.para id n lineH st) idx y bs skip cb pie adjL).resume = some ρ) :
+    ∃ k, ρ = .node 0 (some (.line k)) ∧
+      PMC.colsResume { (default : ColsState) with colSkip := some ρ, index := idx } =
+        some (.node idx (some (.line k))) ∧
+      PMC.firstItemSkip (some (.node idx (some (.line k)))) = some ρ := by
+  simp only [PMC.layoutBox] at hf hr
+  obtain ⟨hab, _, hres⟩ := PMC.finishPara_frag _ _ _ _ _ _ _ _ _ hh hf
+  rw [hres] at hr
+  obtain ⟨_, h2⟩ := PMC.linebox_spec _ _ _ _ _ _ _ _ _ _ _ ho hab
+  split at hr
+  · rename_i hstop
+    obtain ⟨m, _, _, _, hr'⟩ := h2 hstop
+    rw [hr'] at hr
+    simp only [Option.some.injEq] at hr
+    subst hr
+    exact ⟨_, rfl, by simp [PMC.colsResume, skipIdxOf, subSkipOf], by simp [PMC.firstItemSkip, subSkipOf]⟩
+  · cases hr
+
+/-- Non-vacuity: a 5-line paragraph on a 30px page is cut after 3 lines, resume position `{0: line 3}`. -/
+example : (match (PMC.layoutBox { pageBottom := 30, currentPage := 1, forcedBreak := false, inColumn := true, inf := false }
+    (.para 1 5 10 exSt) 2 0 0 none false true []).resume with
+    | some (.node 0 (some (.line k))) => k
+    | _ => 0) = 3 := by
+  decide +kernel
+
 def exDoc : CDoc :=
   { pageH := 40, rootLtr := true,
     root := .block 9 { exSt with isRoot := true } [.block 8 exSt
-      [.para 1 3 10 exSt,
+      [.para 1 2 10 exSt,
        .columns 4 { exSt with mt := 5 } { count := 2, balance := true, ltr := true, width := 192 } [false, false]
          [.para 2 6 10 exSt, .para 3 2 10 { exSt with mt := 4 }],
        .para 5 2 10 exSt]] }
@@ -127,16 +185,16 @@ def exDoc : CDoc :=
 example : NoFixedHeight exDoc.root ∧ WellFormed exDoc.root ∧ NoSpan exDoc.root := by
   simp [exDoc, exSt, PMC.NoFixedHeight, PMC.NoFixedHeightList, PMC.WellFormed, PMC.WellFormedList, NoSpan, NoSpanList, NoSpanFlags]
 
-/-- Page 1: paragraph 1 and two lines of paragraph 2 (one per column); page 2: the container continues;
+/-- Page 1: paragraph 1, the container 5px lower (its top margin), two lines of paragraph 2 (one per column); page 2: the container continues;
 page 3: the paragraph after the container. -/
 example : (match paginateCol exDoc 20 with
     | .ok ps => ps.map (fun (p : CPage) => PMC.fragLines p.root)
     | _ => []) =
-    [[(1, 0), (1, 1), (1, 2), (2, 0), (2, 1)], [(2, 2), (2, 3), (2, 4), (2, 5), (3, 0), (3, 1)], [(5, 0), (5, 1)]] := by
+    [[(1, 0), (1, 1), (2, 0), (2, 1)], [(2, 2), (2, 3), (2, 4), (2, 5), (3, 0), (3, 1)], [(5, 0), (5, 1)]] := by
   decide +kernel
 
 example : PMC.linesFrom exDoc.root none =
-    [(1, 0), (1, 1), (1, 2), (2, 0), (2, 1), (2, 2), (2, 3), (2, 4), (2, 5), (3, 0), (3, 1), (5, 0), (5, 1)] := by
+    [(1, 0), (1, 1), (2, 0), (2, 1), (2, 2), (2, 3), (2, 4), (2, 5), (3, 0), (3, 1), (5, 0), (5, 1)] := by
   decide +kernel
 
 end Wp.C01Col
